@@ -733,7 +733,10 @@ Verdict(m) == EvalFs(m, tree, BaseCtx)
 QuantFms == << FmType("file"), FmType("symlink"), FmName(1), FmContents(TmEmpty),
                FmAnd(FmType("dir"), FmDirContents(NonRec, FsEmpty)), FmDirContents(RecAll, FsNum(">=", 1)),
                \* ONE `matches { a }` applied to the contents of several directories, one after the other
-               FmOr(FmNot(FmType("dir")), FmDirContents(NonRec, FsMatches(FALSE, <<[rel |-> <<1>>, fm |-> FmNone]>>))) >>
+               FmOr(FmNot(FmType("dir")), FmDirContents(NonRec, FsMatches(FALSE, <<[rel |-> <<1>>, fm |-> FmNone]>>))),
+               \* ONE -selection / ONE -with-pruned applied to several directories: each one selects from / prunes ITS files
+               FmOr(FmNot(FmType("dir")), FmDirContents(NonRec, FsSel(FmType("file"), FsNum("==", 1)))),
+               FmOr(FmNot(FmType("dir")), FmDirContents(RecAll, FsPruned(FmName(1), FsNum(">=", 2)))) >>
 
 \* all of them on the plain model, two of them when the model is pruned / selected
 Quants == IF TheWrap.pr = <<>> /\ TheWrap.se = <<>> THEN QuantFms ELSE <<QuantFms[1], QuantFms[4]>>
